@@ -53,10 +53,10 @@ def plan(tier):
                     min_evals={"sg_export": 800, "sg_import": 800, "write_out_file": 400, "star_fields": 400,
                                "star_halfset_idx": 400, "update_coord": 300, "star_reload": 700, "inmem_roundtrip": 350,
                                "converters": 150})
-    return dict(n_cases=len(CLASSES) * 4 * 160, shards=12, classes=CLASSES, timeout_s=3000,
-                min_evals={"sg_export": 20000, "sg_import": 20000, "write_out_file": 10000, "star_fields": 10000,
-                           "star_halfset_idx": 10000, "update_coord": 7000, "star_reload": 18000, "inmem_roundtrip": 8000,
-                           "converters": 3500})
+    return dict(n_cases=len(CLASSES) * 4 * 120, shards=16, classes=CLASSES, timeout_s=3000,
+                min_evals={"sg_export": 14000, "sg_import": 25000, "write_out_file": 7500, "star_fields": 7500,
+                           "star_halfset_idx": 7500, "update_coord": 12000, "star_reload": 16000, "inmem_roundtrip": 6500,
+                           "converters": 10000})
 
 
 # ---- call monitors (Layer A) ---------------------------------------------------------------------
